@@ -23,11 +23,29 @@ Definition dt_kind (d : dt) : nat :=
   match d with DBool => 0 | DI32 | DI64 => 1 | DF32 | DF64 => 2 | DC64 | DC128 => 3 end.
 Definition can_cast (from to : dt) : bool := (dt_kind from <=? dt_kind to)%nat.
 
-(* weighting: constant, or an array weighting identified by a tag *)
-Inductive wgt := WConst (c : Q) | WArr (tag : nat).
+(* np.can_cast(from, to) with the default 'safe' rule *)
+Definition safe_cast (from to : dt) : bool :=
+  dt_eqb from to ||
+  match from, to with
+  | DBool, _ => true
+  | DI32, (DI64 | DF64 | DC128) => true
+  | DI64, (DF64 | DC128) => true
+  | DF32, (DF64 | DC64 | DC128) => true
+  | DF64, DC128 => true
+  | DC64, DC128 => true
+  | _, _ => false
+  end.
+
+(* weighting: constant, or an array weighting identified by a tag, with the
+   dtype of the weight array *)
+Inductive wgt := WConst (c : Q) | WArr (tag : nat) (wdt : dt).
 Record tspace := mkTS { ts_shape : list nat; ts_dt : dt; ts_w : wgt; ts_exp : Q }.
 (* type(space)(shape, dtype) with default weighting / exponent *)
 Definition ts_default (shape : list nat) (d : dt) : tspace := mkTS shape d (WConst 1) 2.
+(* NumpyTensorSpace.__init__ with weighting=<Weighting object>: an array
+   weighting must be safely castable to the space dtype (else ValueError) *)
+Definition ts_valid (t : tspace) : bool :=
+  match ts_w t with WArr _ wd => safe_cast wd (ts_dt t) | WConst _ => true end.
 
 Record axisd := mkAx { ax_min : Q; ax_max : Q; ax_n : nat; ax_cell : Q; ax_label : nat }.
 Record dspace := mkDS { ds_axes : list axisd; ds_ts : tspace }.
@@ -37,7 +55,7 @@ Definition shape_eqb (a b : list nat) : bool :=
 Definition wgt_eqb (a b : wgt) : bool :=
   match a, b with
   | WConst x, WConst y => Qeq_bool x y
-  | WArr i, WArr j => (i =? j)%nat
+  | WArr i _, WArr j _ => (i =? j)%nat
   | _, _ => false
   end.
 Definition tspace_eqb (a b : tspace) : bool :=
@@ -237,7 +255,8 @@ Fixpoint wrap_call (st : store) (sp : tspace) (nout : nat) (outs : list (option 
         | None, RRBuf id =>
             let a := rd st id in
             (* out_space.element(res): no copy, shape must equal the space shape *)
-            if shape_eqb (a_shape a) (ts_shape sp) then Ok (OpTens (call_space sp nout a) id)
+            if negb (ts_valid (call_space sp nout a)) then Err EValue
+            else if shape_eqb (a_shape a) (ts_shape sp) then Ok (OpTens (call_space sp nout a) id)
             else Err EValue
         | None, _ => Err EUnmodelled
         end in
@@ -282,7 +301,10 @@ Definition tens_ufunc (NP : npsem) (st : store) (sp : tspace) (nout : nat) (m : 
           | [RRBuf id] =>
               match out with
               | Some o => Ok ([o], st3)
-              | None => Ok ([OpTens (meth_space sp (rd st3 id)) id], st3)
+              | None =>
+                  if ts_valid (meth_space sp (rd st3 id))
+                  then Ok ([OpTens (meth_space sp (rd st3 id)) id], st3)
+                  else Err EValue
               end
           | _ => Err EUnmodelled
           end
@@ -323,7 +345,7 @@ Definition byaxis_astype (ds : dspace) (kept : list nat) (d : dt) : dspace :=
   let sp := ds_ts ds in
   let w := match ts_w sp with
            | WConst _ => WConst (qprod (map ax_cell axes))
-           | WArr _ => WArr 0
+           | WArr _ wd => WArr 0 wd
            end in
   let ts0 := mkTS shape (ts_dt sp) w (ts_exp sp) in
   let ts := if dt_eqb d (ts_dt sp) then ts0
@@ -397,10 +419,10 @@ Definition disc_ufunc (NP : npsem) (st : store) (ds : dspace) (nout : nat) (m : 
           match rs with
           | [OpScal v] => Ok ([OpScal v], st')
           | [OpNone] => Ok ([OpNone], st')
-          | [OpTens rsp id] =>
-              match out_t with
-              | Some _ => match out_orig with Some o => Ok ([o], st') | None => Err EUnmodelled end
-              | None =>
+          | [r] =>
+              match out_t, r with
+              | Some _, _ => match out_orig with Some o => Ok ([o], st') | None => Err EUnmodelled end
+              | None, OpTens rsp id =>
                   match m with
                   | MAccumulate =>
                       match mk_dspace (ds_axes ds) rsp with
@@ -430,6 +452,7 @@ Definition disc_ufunc (NP : npsem) (st : store) (ds : dspace) (nout : nat) (m : 
                       else Err EValue
                   | _ => Err ERuntime
                   end
+              | None, _ => Err EUnmodelled
               end
           | _ => Err EUnmodelled
           end
